@@ -12,7 +12,7 @@ import (
 
 var _ sync.Mutex
 
-func (P *Prog) recDefs(reveal func(name string) bool) string {
+func (P *Prog) recDefs(reveal func(name string) bool, text string) string {
 	P.mu.Lock()
 	defer P.mu.Unlock()
 	var names []string
@@ -44,6 +44,30 @@ func (P *Prog) recDefs(reveal func(name string) bool) string {
 			}
 		}
 	}
+	// only the functions the obligation mentions (directly or through other definitions)
+	if text != "" {
+		need := map[string]bool{}
+		var visit func(t string)
+		visit = func(t string) {
+			for _, n := range names {
+				if !need[n] && containsSym(t, n) {
+					need[n] = true
+					visit(P.recCache[n])
+					if tpl, ok := P.recTemplates[n]; ok {
+						visit(tpl.body.String())
+					}
+				}
+			}
+		}
+		visit(text)
+		var keep []string
+		for _, n := range names {
+			if need[n] {
+				keep = append(keep, n)
+			}
+		}
+		names = keep
+	}
 	// declarations first, then axioms
 	var decls, axioms []string
 	for _, n := range names {
@@ -70,7 +94,7 @@ func (P *Prog) recDefs(reveal func(name string) bool) string {
 }
 
 func (P *Prog) buildRecDef(sf *SpecFunc) string {
-	x := &Exec{P: P, key: "spec." + sf.Name, usedExt: map[string]bool{}, inlined: map[string]bool{}}
+	x := &Exec{P: P, key: "spec." + sf.Name, usedExt: map[string]bool{}, inlined: map[string]bool{}, usedContracts: map[string]bool{}}
 	st := &State{declSet: map[string]bool{}, heaps: map[string]string{}, hsort: map[string]string{}, cells: map[*Cell]Val{},
 		written: map[string]bool{}, ghost: map[string]string{}, boolDef: map[string]string{}, factSet: map[string]bool{}}
 	st.top = "0"
@@ -289,6 +313,8 @@ func isNonlinear(e *sexp) bool {
 		return false
 	}
 	switch e.head() {
+	case "mulS", "fdivS", "fmodS", "tdivS", "tmodS":
+		return true
 	case "*":
 		n := 0
 		for _, k := range e.kids[1:] {
